@@ -148,6 +148,19 @@ Proof.
   destruct (brillhart p draws80) as [[a b]|]; [|discriminate]. exists a, b. split; [reflexivity | apply Z.eqb_eq, H].
 Qed.
 
+(* --- the Kronecker-symbol algorithm (model of mpz_jacobi / mpz_legendre / mpz_kronecker) agrees with Euler's criterion
+       (the model of legendre used by the square-root code): every odd prime p <= 300, every a in [-p, 2p] *)
+Definition kron_ok (p : Z) : bool :=
+  if is_primeb p && (2 <? p) then forallb (fun a => kronecker_sym a p =? legendre a p) (zrange (- p) (2 * p)) else true.
+Definition Kronecker_euler_stmt := forall p a, 3 <= p <= 300 -> is_primeb p = true -> - p <= a <= 2 * p ->
+  kronecker_sym a p = legendre a p.
+Lemma kronecker_euler_sweep : Kronecker_euler_stmt.
+Proof.
+  intros p a Hp Hpr Ha. assert (H : kron_ok p = true) by (clear - Hp; revert p Hp; apply (sweep kron_ok); vm_cast_no_check (eq_refl true)).
+  unfold kron_ok in H. rewrite Hpr in H. replace (2 <? p) with true in H by (symmetry; apply Z.ltb_lt; lia). cbn [andb] in H.
+  rewrite forallb_forall in H. apply Z.eqb_eq. apply H, zrange_In, Ha.
+Qed.
+
 (* ------------------------------------------------------------------------------------------------------------------
    FULL statements of which the sweeps above are the bounded (`_partial`) versions.  They are NOT proved here; they are
    kept visible so that the gap is explicit (DESIGN 5/C13: claimed partial). *)
@@ -167,6 +180,7 @@ Definition Sqrootmodprimepower_full_stmt := forall p k a draws, prime p -> 1 <= 
   (exists g, In g draws /\ legendre g p = -1) -> Forall (fun d => 0 < d < p) draws ->
   Root_spec a (p ^ k) (if p =? 2 then Some (sqrootmodpoweroftwo (pow2_fuel k) a k (p ^ k))
                        else sqrootmodprimepower (pow2_fuel k) a p k (p ^ k) draws).
+Definition Kronecker_euler_full_stmt := forall p a, prime p -> 2 < p -> kronecker_sym a p = legendre a p.
 Definition Brillhart_full_stmt := forall p draws, prime p -> p mod 4 = 1 ->
   (exists g, In g draws /\ legendre g p = -1) -> Forall (fun d => 0 < d < p) draws ->
   exists a b, brillhart p draws = Some (a, b) /\ a * a + b * b = p.
